@@ -244,6 +244,32 @@ RAW_LINETABLES = [
 ]
 
 
+def _raw_lnotabs():
+    """co_lnotab as the 3.7-3.9 peephole pass leaves it when the code between two line changes was removed: a full step at one address followed, at the
+    same address, by a step of any size and sign (`+127` whose code went away, then `-327`)."""
+    out = []
+    for first in (127, -128, 5):
+        for total in (-327, -256, -255, -128, -1, 1, 127, 128, 300):
+            tail = asm_lnotab([(0, total)], False)
+            out.append((f"a step of {first:+d} at offset 2 and, at the same address, a step of {total:+d}", bytes([2, first & 255]) + tail + bytes([2, 1]), 6))
+    return out
+
+
+def raw_lnotab_rule(an: Analysis, rep, rule="R10.F"):
+    from .c10 import find_stages
+    st = find_stages(an)
+    dec, enc = st["decode"], st["encode"]
+    ws = _raw_lnotabs()
+    for version in [v for v in VERSIONS if v < (3, 10)]:
+        vs = ".".join(map(str, version))
+        bad_lines, bad_bytes, gap = _fold_tables(an, version, ws)
+        if gap:
+            raise AnalysisError(gap)
+        rep.add(rule, f"{enc.qual}::tables with two steps at one address are decoded and written back [{vs}]", not bad_lines and not bad_bytes, loc(enc.module, enc.node),
+                f"{len(ws)} tables (a full step whose code the peephole pass removed, followed at the same address by a step of any size and sign)" if not bad_lines and not bad_bytes else
+                (bad_lines + bad_bytes)[0] + (f" (+{len(bad_lines) + len(bad_bytes) - 1} more)" if len(bad_lines) + len(bad_bytes) > 1 else ""))
+
+
 def raw_tables_rule(an: Analysis, rep, rule="R10.F"):
     """Only under C10, whose quantifier is every table the assembler can emit (C01 speaks of code compiled from a valid program's source)."""
     from .c10 import find_stages
